@@ -1020,7 +1020,8 @@ class _CxIfPathSegmentLiteral(_CxParent):
         self._literal = literal
 
     def src(self, indentation: int) -> str:
-        template = "{0}if path[{1}] == '{2}':\n{3}"
+        # NOTE: The literal is arbitrary user input, and must be quoted as such.
+        template = '{0}if path[{1}] == {2!r}:\n{3}'
         return template.format(
             _TAB_STR * indentation,
             self._segment_idx,
